@@ -88,13 +88,13 @@ Ltac frame_chain d :=
 (* hy_preserved h H' where H' is a callee's heap with at most one dictionary written on top *)
 Ltac leaf_restore :=
   let d := fresh "d" in let k0 := fresh "k0" in let Hd := fresh "Hd" in
-  cbv beta iota delta [post_restore]; intros d k0 Hd; unfold hy_entry; cbn [hget];
+  cbv beta iota delta [post_restore]; intros d k0 Hd; unfold hy_entry; rewrite ?hget_hset;
   match goal with
   | Hg : hget ?h ?g = Some (ODict _) |- _ =>
     lazymatch type of Hd with
     | hget h d = _ =>
       destruct (N.eqb_spec d g) as [->|Hne];
-      [ rewrite Hg in Hd; injection Hd as <-; clear Hg;
+      [ rewrite ?N.eqb_refl; rewrite Hg in Hd; injection Hd as <-; clear Hg;
         repeat match goal with H : hget _ g = _ |- _ => rewrite H end;
         unfold hy in *;
         repeat first [ rewrite dget_dset_hy | rewrite dget_ddel_hy | rewrite dget_nil ];
